@@ -717,8 +717,11 @@ def _execute_bridge(trace):
         near = sorted({m for n in wpts for m in (n - 1, n, n + 1) if 1 <= m <= K})
         rng = random.Random(trace['env_seed'])
         pts = sorted(set(near) | {rng.randint(1, K) for _ in range(trace['bridge']['n_random'])} | {1, K})
-        if len(pts) > (60 if trace['bridge']['n_random'] <= 6 else 400):
-            pts = sorted(rng.sample(pts, 60 if trace['bridge']['n_random'] <= 6 else 400))
+        cap = 30 if trace['bridge']['n_random'] <= 6 else 300
+        if len(pts) > cap:
+            keep = [p for p in near if p in pts][:cap // 2]  # prefer the points in and around the cache functions
+            rest = [p for p in pts if p not in keep]
+            pts = sorted(set(keep) | set(rng.sample(rest, min(len(rest), cap - len(keep)))))
         agg['bridge_points_existing'] = K
         agg['bridge_points_in_cache_functions'] = len(wpts)
         for k in pts:
@@ -946,5 +949,5 @@ DETERMINISM_RERUNS = {'quick': 4, 'thorough': 16}
 def jobs(tier, batch_seed):
     from simkit.driver import std_jobs
     if tier == 'thorough':
-        return std_jobs([('generate_enum', 32), ('generate', 20000), ('generate_disk', 6000)], batch_seed)
-    return std_jobs([('generate_enum', 2), ('generate', 130), ('generate_disk', 40)], batch_seed)
+        return std_jobs([('generate_enum', 32), ('generate_bridge', 48), ('generate', 20000), ('generate_disk', 6000)], batch_seed)
+    return std_jobs([('generate_enum', 2), ('generate_bridge', 3), ('generate', 130), ('generate_disk', 40)], batch_seed)
